@@ -15,32 +15,49 @@ import (
 const zzM = chord.MaxIdentitifer
 const zzMask = chord.MaxIdentitifer - 1
 
-// zzRing is a symbolic ring membership: N distinct ids < 2^48 in no particular order.
-type zzRing struct{ ids []uint64 }
+// zzRing is a symbolic ring membership: ids[0] is an arbitrary id < 2^48 (the node under test) and the other
+// members are given by their clockwise distances from it, 0 < dist[1] < dist[2] < ... < 2^48. Every set of n
+// distinct ids containing ids[0] can be listed this way (membership is a set, nothing depends on the listing
+// order), so this loses no ring; it spares the solver the n! symmetric listings and keeps owner/pred short.
+type zzRing struct {
+	ids  []uint64
+	dist []uint64
+}
 
 func zzNewRing(n int) *zzRing {
-	r := &zzRing{ids: make([]uint64, n)}
-	for i := range r.ids {
-		r.ids[i] = rt.U64("id")
-		rt.Assume(r.ids[i] < zzM)
-		for j := 0; j < i; j++ {
-			rt.Assume(r.ids[i] != r.ids[j])
-		}
+	r := &zzRing{ids: make([]uint64, n), dist: make([]uint64, n)}
+	r.ids[0] = rt.U64("id")
+	rt.Assume(r.ids[0] < zzM)
+	for i := 1; i < n; i++ {
+		r.dist[i] = rt.U64("dist")
+		rt.Assume(r.dist[i] < zzM)
+		rt.Assume(r.dist[i] > r.dist[i-1])
+		r.ids[i] = (r.ids[0] + r.dist[i]) & zzMask
 	}
 	return r
 }
 
 // owner: the first member at or clockwise after x (one term, no forks).
 func (r *zzRing) owner(x uint64) uint64 {
-	best := r.ids[0]
-	bd := (r.ids[0] - x) & zzMask
-	for _, id := range r.ids[1:] {
-		d := (id - x) & zzMask
-		c := d < bd
-		best = rt.IteU64(c, id, best)
-		bd = rt.IteU64(c, d, bd)
+	dx := (x - r.ids[0]) & zzMask
+	best := r.ids[0] // past the last member: wraps to ids[0]
+	for i := len(r.ids) - 1; i >= 1; i-- {
+		best = rt.IteU64(dx <= r.dist[i], r.ids[i], best)
 	}
-	return best
+	return rt.IteU64(dx == 0, r.ids[0], best)
+}
+
+// ownerWithout: owner(x) in the ring as it was before member ids[skip] (skip >= 1) joined.
+func (r *zzRing) ownerWithout(x uint64, skip int) uint64 {
+	dx := (x - r.ids[0]) & zzMask
+	best := r.ids[0]
+	for i := len(r.ids) - 1; i >= 1; i-- {
+		if i == skip {
+			continue
+		}
+		best = rt.IteU64(dx <= r.dist[i], r.ids[i], best)
+	}
+	return rt.IteU64(dx == 0, r.ids[0], best)
 }
 
 // succ: the member clockwise after member id (itself in a ring of one).
@@ -48,19 +65,16 @@ func (r *zzRing) succ(id uint64) uint64 { return r.owner((id + 1) & zzMask) }
 
 // pred: the member counter-clockwise before member id (itself in a ring of one).
 func (r *zzRing) pred(id uint64) uint64 {
-	best := id
-	bd := uint64(zzM) // larger than any distance
-	for _, o := range r.ids {
-		d := (id - o) & zzMask // counter-clockwise distance id -> o
-		c := rt.And(d != 0, d < bd)
-		best = rt.IteU64(c, o, best)
-		bd = rt.IteU64(c, d, bd)
+	d := (id - r.ids[0]) & zzMask
+	best := r.ids[len(r.ids)-1] // id == ids[0]: the last member
+	for i := 0; i < len(r.ids); i++ {
+		best = rt.IteU64(r.dist[i] < d, r.ids[i], best)
 	}
 	return best
 }
 
 // zzStub is a neighbour whose answers come from the ring oracle. Its FindSuccessor also checks the
-// induction measure: a correct node only forwards a lookup to a node strictly inside (from, key).
+// induction measure: a correct node only forwards a lookup to a node in (from, key], i.e. strictly closer to the key.
 type zzStub struct {
 	id        uint64
 	ring      *zzRing
@@ -79,7 +93,8 @@ func (n *zzStub) FindSuccessor(key uint64) (chord.VNode, error) {
 	if n.calls != nil {
 		*n.calls++
 	}
-	rt.Assert(chord.Between(n.from, n.id, key, false), "lookup-forwarded-only-to-a-node-strictly-between-self-and-key")
+	// the clockwise distance to the key must strictly decrease with every hop: next in (from, key]
+	rt.Assert(chord.Between(n.from, n.id, key, true), "lookup-forwarded-only-to-a-node-closer-to-the-key")
 	return &zzStub{id: n.ring.owner(key), ring: n.ring, from: n.from}, nil
 }
 func (n *zzStub) GetSuccessors() ([]chord.VNode, error) { return nil, nil }
@@ -131,7 +146,7 @@ func zzBareNode(id uint64, st chord.State, kv chord.KVProvider) *LocalNode {
 func zzWire(n *LocalNode, r *zzRing) (calls *int) {
 	calls = new(int)
 	self := n.ID()
-	n.predecessor = &zzStub{id: r.pred(self), ring: r, from: self, calls: calls}
+	n.predecessor = &zzStub{id: r.ids[len(r.ids)-1], ring: r, from: self, calls: calls} // = r.pred(self)
 	L := chord.ExtendedSuccessorEntries
 	if len(r.ids) == 1 {
 		n.predecessor = n
@@ -139,10 +154,9 @@ func zzWire(n *LocalNode, r *zzRing) (calls *int) {
 		return
 	}
 	var succs []chord.VNode
-	cur := self
 	for i := 0; i < L && i < len(r.ids)-1; i++ {
-		cur = r.succ(cur)
-		succs = append(succs, &zzStub{id: cur, ring: r, from: self, calls: calls})
+		// members are listed clockwise from self: ids[i+1] is the (i+1)-th successor
+		succs = append(succs, &zzStub{id: r.ids[i+1], ring: r, from: self, calls: calls})
 	}
 	n.successors = succs
 	return
@@ -156,5 +170,13 @@ func zzFinger(n *LocalNode, r *zzRing, k int, calls *int) {
 		n.fingers[k].node = n
 		return
 	}
+	n.fingers[k].node = &zzStub{id: target, ring: r, from: self, calls: calls}
+}
+
+// zzFingerStale sets finger k of n to what it was before member ids[skip] joined the ring (fingers are only
+// refreshed by the periodic fixFinger, the successor list by stabilize: in between the table is stale).
+func zzFingerStale(n *LocalNode, r *zzRing, k int, skip int, calls *int) {
+	self := n.ID()
+	target := r.ownerWithout((self+(uint64(1)<<uint(k-1)))&zzMask, skip)
 	n.fingers[k].node = &zzStub{id: target, ring: r, from: self, calls: calls}
 }
